@@ -102,7 +102,7 @@ func init() {
 	reg("C10", d("verifC10a", "verifC10b", "verifC10c", "verifC10d", "verifC10e"), d("verifC10a", "verifC10b", "verifC10c", "verifC10d", "verifC10e", "verifT10a"),
 		d(pgBuild, "(go.uber.org/dig.paramGroupedSlice).callGroupProviders", rgExtract, "go.uber.org/dig.parseGroupString", "(*go.uber.org/dig.Scope).getValueGroup"),
 		d("group-nonempty", "invoke-ok", "bystander"),
-		"(a) 2 feeders placed freely in <=2 scopes with Export, 1 consumer from a free scope; (b) flatten results of length 0-2, a feeder added between two requests; (c) members provided As(vI0) / As(vI0,vI1), consumers of []*vA / []vI0 / []vI1, 2 Invokes; (d) 2 feeders with flatten results of length 0-2 placed freely in <=2 scopes; (e) 2 feeders and a consumer over the group names \"g\" and \"g \"", "quick entries plus (T10a) flatten, Export, a late feeder, 2 scopes, 2 Invokes",
+		"(a) 2 feeders placed freely in <=2 scopes with Export, 1 consumer from a free scope; (b) flatten results of length 0-2, a feeder added between two requests; (c) members provided As(vI0) / As(vI0,vI1), consumers of []*vA / []vI0 / []vI1, 2 Invokes; (d) 2 feeders with flatten results of length 0-2 placed freely in <=2 scopes; (e) 2 feeders and a consumer over the group names \"g\", \"g \", \"G\", \"gg\"", "quick entries plus (T10a) flatten, Export, a late feeder, 2 scopes, 2 Invokes",
 		stubs, uf, "group order is compared as a multiset")
 	reg("C11", d("verifC11a", "verifC11b", "verifC11c", "verifC11d", "verifC11e"), d("verifC11a", "verifC11b", "verifC11c", "verifC11d", "verifC11e", "verifT11a"),
 		d(pgBuild, poBuild, "go.uber.org/dig.parseGroupString"),
